@@ -37,6 +37,7 @@ type Concrete struct {
 	IdleAuth  bool // nothing is sent until the read of the SASL response has timed out
 	Idle      bool // send nothing: wait for the server's read timeout
 	ThenEOF   bool // close the write side after the phases
+	StallThen []byte // after the phases: stay silent until the server has reacted to its read timeout, then send this
 	Handshake bool
 	Hostname  string
 	MailFrom  string
@@ -172,6 +173,22 @@ func Concretize(e *Edge, n int) Concrete {
 		}
 		k.ThenEOF = true
 		k.Setup = func(be *rec.Backend) { be.DataPlans = []rec.DataPlan{{Propagate: true}} }
+	case "DATASTALL":
+		line("DATA")
+		k.Phases = append(k.Phases, []byte("hi\r\n"))
+		// the rest of the message arrives after the silence: message text that looks like commands
+		k.StallThen = []byte(fmt.Sprintf("MAIL FROM:<bait%d@x.test>\r\n.\r\nNOOP\r\n", n))
+		k.Setup = func(be *rec.Backend) { be.DataPlans = []rec.DataPlan{{Propagate: true}} }
+	case "BDATSTALL":
+		l := ""
+		if c.L {
+			l = " LAST"
+		}
+		k.Phases = append(k.Phases, []byte(fmt.Sprintf("BDAT %d%s\r\nab", c.N, l)))
+		k.StallThen = []byte("\r\n\r\nNOOP\r\nNOOP\r\n") // the 4 missing octets of the chunk, then commands
+		if c.P != "" {
+			k.Setup = func(be *rec.Backend) { be.DataPlans = []rec.DataPlan{{Propagate: true}} }
+		}
 	case "BDATCUT":
 		l := ""
 		if c.L {
@@ -336,7 +353,7 @@ func Concretize(e *Edge, n int) Concrete {
 	default:
 		panic("unknown abstract command " + c.C)
 	}
-	if e.Dst.Closed && !e.Src.Closed && !k.EOF && !k.ThenEOF && len(k.Phases) > 0 {
+	if e.Dst.Closed && !e.Src.Closed && !k.EOF && !k.ThenEOF && k.StallThen == nil && len(k.Phases) > 0 {
 		// pipeline the suffix behind the closing command, in the same segment
 		last := len(k.Phases) - 1
 		k.Phases[last] = append(append([]byte{}, k.Phases[last]...), AfterSuffix...)
@@ -518,6 +535,25 @@ func (cv *Conv) Exec(e *Edge) (divs []evid.Div, fatal error) {
 				break
 			}
 		}
+	}
+	if k.StallThen != nil {
+		// silence until the server has reacted (a reply, or the connection ended)
+		n0 := len(out)
+		for dl := time.Now().Add(IdleReadTimeout*4 + 2*time.Second); time.Now().Before(dl) && !cv.C.SrvEnd.Closed(); {
+			o, _ := cv.C.Output()
+			out = append(out, o...)
+			if len(out) > n0 {
+				break
+			}
+			time.Sleep(time.Millisecond)
+		}
+		cv.C.WaitIdle()
+		sent = append(sent, "<silence>")
+		cv.C.Send(k.StallThen) // (fails when the server has closed: that is the intended outcome)
+		cv.C.WaitIdle()
+		o, _ := cv.C.Output()
+		out = append(out, o...)
+		sent = append(sent, string(k.StallThen))
 	}
 	if k.ThenEOF {
 		cv.C.CloseWrite()
@@ -796,9 +832,9 @@ func (cv *Conv) Exec(e *Edge) (divs []evid.Div, fatal error) {
 	// A transfer step that produced MORE replies than specified, with the
 	// specified ones as a prefix, executed message octets as commands: that is
 	// the desynchronisation of C02 (DATA) / C05 (BDAT), whatever else it broke.
-	if (e.Lbl.Cmd.C == "DATA" || e.Lbl.Cmd.C == "BDAT") && len(rs) > len(exp) && prefixOK(rs, exp) {
+	if cc := e.Lbl.Cmd.C; (cc == "DATA" || cc == "BDAT" || cc == "DATASTALL" || cc == "BDATSTALL") && len(rs) > len(exp) && prefixOK(rs, exp) {
 		prop := "C02"
-		if e.Lbl.Cmd.C == "BDAT" {
+		if strings.HasPrefix(cc, "BDAT") {
 			prop = "C05"
 		}
 		var also []evid.Div
